@@ -11,6 +11,7 @@
 //	go    go f(a, b)                                                 -> { vf, va, vb := f, a, b; verifhook.Go(site, func(){ vf(va, vb) }) }
 //	rand  math/rand top-level calls                                  -> func() T { verifhook.Yield(site); return rand.F(args) }()
 //	select  select { case <-a: A; case b <- v: B }                   -> switch verifhook.SelectPick(site, R(a), S(b)) { case 0: select { case <-a: A }; case 1: select { case b <- v: B }; default: <original> }
+//	maprange=M+N  for k, v := range M {                              -> for _, k := range verifhook.MapKeys(site, M) { v, ok := M[k]; if !ok { continue }; ...
 //	        (only selects with >= 2 communication clauses whose channel expressions are identifiers, selectors or x.Done(); not labelled; no labels in the bodies)
 //
 // The go/ast tree is used only to locate the byte ranges to edit; the edits are
@@ -62,7 +63,8 @@ type rewriter struct {
 	randNm  string
 	edits   []*edit
 	counts  map[string]int
-	removed map[string]int // package name -> selector uses replaced
+	maps    map[string]bool // map expressions whose range loops are rewritten (rule maprange=expr+expr)
+	removed map[string]int  // package name -> selector uses replaced
 }
 
 func importName(f *ast.File, path string) string {
@@ -354,12 +356,49 @@ func (rw *rewriter) selectStmt(sel *ast.SelectStmt, labelled bool) {
 	rw.counts["select"]++
 }
 
+// rangeStmt rewrites `for k, v := range M {` for the listed map expressions M into an iteration over
+// verifhook.MapKeys(site, M) (sorted, tape-rotated) that skips keys deleted meanwhile, as a native
+// map iteration does.
+func (rw *rewriter) rangeStmt(rs *ast.RangeStmt) {
+	if rs.Tok != token.DEFINE || rs.Key == nil {
+		return
+	}
+	x := strings.Join(strings.Fields(string(rw.src[rw.off(rs.X.Pos()):rw.off(rs.X.End())])), "")
+	if !rw.maps[x] {
+		return
+	}
+	key := string(rw.src[rw.off(rs.Key.Pos()):rw.off(rs.Key.End())])
+	val := ""
+	if rs.Value != nil {
+		val = string(rw.src[rw.off(rs.Value.Pos()):rw.off(rs.Value.End())])
+	}
+	e := &edit{lo: rw.off(rs.Pos()), hi: rw.off(rs.Body.Lbrace) + 1}
+	site := rw.site(rs.Pos())
+	e.gen = func() string {
+		k := key
+		if k == "_" {
+			k = "verifK"
+		}
+		hdr := "for _, " + k + " := range " + hookName + ".MapKeys(" + site + ", " + x + ") { "
+		if val == "" || val == "_" {
+			return hdr + "if _, verifOK := " + x + "[" + k + "]; !verifOK { continue }; "
+		}
+		return hdr + val + ", verifOK := " + x + "[" + k + "]; if !verifOK { continue }; _ = " + val + "; "
+	}
+	rw.edits = append(rw.edits, e)
+	rw.counts["maprange"]++
+}
+
 func (rw *rewriter) collect() {
 	labelled := map[ast.Stmt]bool{}
 	ast.Inspect(rw.file, func(n ast.Node) bool {
 		switch v := n.(type) {
 		case *ast.LabeledStmt:
 			labelled[v.Stmt] = true
+		case *ast.RangeStmt:
+			if len(rw.maps) > 0 {
+				rw.rangeStmt(v)
+			}
 		case *ast.SelectStmt:
 			if rw.rules["select"] {
 				rw.selectStmt(v, labelled[v])
@@ -443,8 +482,15 @@ func main() {
 		parts := strings.SplitN(spec, ":", 2)
 		rel := parts[0]
 		rules := map[string]bool{}
+		maps := map[string]bool{}
 		if len(parts) == 2 {
 			for _, r := range strings.Split(parts[1], ",") {
+				if strings.HasPrefix(r, "maprange=") {
+					for _, m := range strings.Split(strings.TrimPrefix(r, "maprange="), "+") {
+						maps[m] = true
+					}
+					continue
+				}
 				rules[r] = true
 			}
 		}
@@ -471,7 +517,7 @@ func main() {
 				fmt.Fprintf(os.Stderr, "seamgen: parse %s: %v\n", srcPath, err)
 				os.Exit(2)
 			}
-			rw := &rewriter{fset: fset, file: f, src: src, base: name, rules: rules, counts: map[string]int{}, removed: map[string]int{},
+			rw := &rewriter{fset: fset, file: f, src: src, base: name, rules: rules, maps: maps, counts: map[string]int{}, removed: map[string]int{},
 				netName: importName(f, "net"), httpNm: importName(f, "net/http"), randNm: importName(f, "math/rand")}
 			rw.collect()
 			if len(rw.edits) == 0 {
